@@ -11,7 +11,13 @@ export GOFLAGS=-mod=mod GOPROXY=off GOSUMDB=off GOTOOLCHAIN=local
 mkdir -p "$ALT/repo" "$ALT/verif"
 rsync -a --delete --exclude .git /repo/ "$ALT/repo/"
 rsync -a --delete --exclude .git --exclude .run --exclude .bin --exclude replays --exclude .fuzzcache --exclude evidence /verif/ "$ALT/verif/"
+# git must not discover a repository above the scratch copy (inside one, "git apply" run from a
+# sub-directory silently ignores every path of the patch), and the patch must change something
+export GIT_CEILING_DIRECTORIES="$ALT"
+sum_before=$(cd "$ALT/repo" && find . -name '*.go' -newer "$ALT/repo/go.mod" -o -name '*.go' | sort | xargs cat | sha256sum)
 ( cd "$ALT/repo" && git apply "$PATCH" ) || { echo "patch does not apply"; exit 3; }
+sum_after=$(cd "$ALT/repo" && find . -name '*.go' -newer "$ALT/repo/go.mod" -o -name '*.go' | sort | xargs cat | sha256sum)
+[ "$sum_before" != "$sum_after" ] || { echo "patch changed nothing (applied outside the scratch copy?)"; exit 3; }
 sed -i "s|=> /repo\$|=> $ALT/repo|" "$ALT/verif/go.mod"
 grep -q "=> $ALT/repo" "$ALT/verif/go.mod" || { echo "go.mod not redirected"; exit 3; }
 start=$(date +%s)
